@@ -80,7 +80,12 @@ func c03Specs(tier string, seed int) []c03Spec {
 			}
 		}
 	}
-	out = append(out, c03Spec{Kind: "seq", Batch: []string{"C", "C", "Ca"}}, c03Spec{Kind: "seq", Batch: []string{"Ap", "A", "Ap"}}, c03Spec{Kind: "seq", Batch: []string{"C", "Ca", "C"}})
+	out = append(out, c03Spec{Kind: "seq", Batch: []string{"C", "C", "Ca"}}, c03Spec{Kind: "seq", Batch: []string{"Ap", "A", "Ap"}}, c03Spec{Kind: "seq", Batch: []string{"C", "Ca", "C"}},
+		c03Spec{Kind: "seq", Batch: []string{"Cw", "Cw2"}}, c03Spec{Kind: "seq", Batch: []string{"Cw", "C", "Cw2"}}, c03Spec{Kind: "seq", Batch: []string{"Cw", "Cw2", "Cw"}})
+	out = append(out, c03Spec{Kind: "e3", Batch: []string{"Cw", "Cw2"}, Conc: 2, Bound: -1, Days: 2})
+	if tier == "thorough" {
+		out = append(out, c03Spec{Kind: "e3", Batch: []string{"Cw", "C", "Cw2"}, Conc: 2, Bound: bound, Days: 3})
+	}
 	out = append(out, c03Spec{Kind: "e3", Batch: []string{"Ao", "A2", "Bo"}, Conc: 2, Bound: bound, Days: 3}, c03Spec{Kind: "e3", Batch: []string{"Bo", "A"}, Conc: 2, Bound: -1, Days: 2}, c03Spec{Kind: "e3", Batch: []string{"Ag", "A"}, Conc: 2, Bound: -1, Days: 2}, c03Spec{Kind: "e3", Batch: []string{"As", "A"}, Conc: 2, Bound: -1, Days: 2})
 	out = append(out, c03Spec{Kind: "race", Conc: 4}, c03Spec{Kind: "race", Conc: 8})
 	// a project without configuration file (the first run generates one on disk): both orders of two lines with different overrides
